@@ -9,31 +9,57 @@ CFG = {'lean_modules': ['ObiVerif.Props.C09'],
          'length <= 5 / 6, results folded into a checksum, the oracle run on every pair; random pairs to 500 bases, plain or with IUPAC codes '
          '(rates 1/3, 1/8, 1/20), B an edited copy of A (0..24 edits) or independent, bounds -1, 0..5 and around the number of edits, buffer nil / '
          'filled with 0, 2^64-1, 2^32, 2^33-1, 2^48-1; every case is also re-run on the real code with a buffer reused across all calls and with the '
-         'arguments exchanged; d1 on close pairs (0..2 edits, runs of equal symbols frequent); non-trivial = distinct well-formed case',
+         'arguments exchanged; lcsseq: HISTORIES of 2..7 calls on ONE scratch buffer that starts empty (deterministic ladder for every bound 0..14, '
+         'both modes: narrowest band (length difference = bound, width 2e+5) then widest band (equal lengths, width 4e+5) and back; 700 (thorough '
+         '8 x 4000) random histories mixing lengths 0..90, bounds -1 / 0..15 / around the edits, pure length differences, both modes, long pair then '
+         'short pair), the model threading the buffer (re-allocation iff cap < 2*width, stale content kept) through the same history, every call '
+         'also compared on the real code with a fresh buffer; a Go panic inside the kernel is caught per call and reported as a failing input; '
+         'd1 on close pairs (0..2 edits, runs of equal symbols frequent); non-trivial = distinct well-formed case',
  'technique': 'Lean 4 theorems (table lemma by decide over the table regenerated from the source; packed-cell arithmetic on UInt64; inductions on the '
-              'banded matrix and on prefix/suffix stripping) + differential correspondence of two model layers (verbatim loops, structural) with the '
-              'real kernels + naive full-matrix / Levenshtein oracles on the real code',
+              'banded matrix and on prefix/suffix stripping; REFINEMENT proofs: loop invariants of the index loops of D1Or0, and of the two-row '
+              'anti-diagonal buffer of FastLCSEGFScoreByte against the cells of the banded matrix, by induction over the outer loop) + differential '
+              'correspondence of the model layers (verbatim loops, structural, buffer threaded through histories of calls) with the real kernels + '
+              'naive full-matrix / Levenshtein oracles on the real code',
  'level_text': 'Proved for all inputs: iupac_table_is_bitset (the regenerated _iupac table is the IUPAC bit-set table; with the unrepaired value '
                "_iupac['v']=13 the build fails), samenuc_iff_sets_intersect; cell_order / cell_ops (uint64 comparison of packed cells = lexicographic "
                '(score, shorter length), out < in, codec round trip, _incpath/_incscore/_setout act field-wise, for scores < 65536 and lengths < 65535 - '
                'sharpness shown); d1or0_spec (verdict 0 iff equal, 1 iff Levenshtein distance exactly 1 with position and symbols reproducing the edit, '
                'else (-1,-1,0,0)) and d1or0_symm, for all byte sequences; lcsDP_is_lcs (textbook recurrence = optimum over all alignments, any '
                'compatibility relation); fastLCS_sound (every answer of the banded kernel, any bound, is the score and length of an actual alignment - '
-               'never spurious; |a|+|b| < 30000 because the sentinel _notavail is the length 30000); fastLCS_exact_partial (exactly (LCS, shortest '
-               'alignment) when no bound is given or when the band covers the matrix). fastLCS_exact (FULL: whenever the differences of the optimum do not exceed the bound, or no bound is given, the banded kernel '
-               'returns exactly (LCS, shortest alignment) - band-containment argument), fastLCS_beyond (otherwise none or an answer itself beyond the bound), '
-               'fastLCS_exact_cover, fastLCS_decides_bound, all for |a|+|b| < 30000. PARTIAL: endgapfree=true (FastLCSEGFScore) and the refinement between '
-               'the verbatim loop layer and the structural layer are tied by correspondence and oracle only.',
- 'level_note': 'Trusted: Lean kernel; the transcriptions in Model/Lcs.lean; the extractor (literals of _iupac). The theorems about D1Or0 and the LCS '
-               'kernel are stated on structural layers (d1F: prefix/suffix stripping; bandLCS: banded matrix by rows with the packed words, band limits, '
-               'sentinels and _setout of the code); the verbatim layers (index loops of D1Or0; two anti-diagonal rows in one buffer with the xs/xf index '
-               'arithmetic of FastLCSEGFScoreByte) are NOT proved equal to them in Lean: both layers are executed on every correspondence case against '
-               'the real code (vm_C09 answers layer-mismatch if they differ) - tie = both layers validated differentially. Independence of the scratch '
-               'buffer content is checked on the real code (nil / poisoned / reused), not proved.',
+               'never spurious; |a|+|b| < 30000 because the sentinel _notavail is the length 30000); fastLCS_exact (FULL: whenever the differences of '
+               'the optimum do not exceed the bound, or no bound is given, the banded kernel returns exactly (LCS, shortest alignment) - '
+               'band-containment argument), fastLCS_beyond (otherwise none or an answer itself beyond the bound), fastLCS_exact_cover, '
+               'fastLCS_decides_bound, fastLCS_exact_partial, all for |a|+|b| < 30000. REFINEMENT (new, all inputs, no length bound): '
+               'd1or0_verbatim_refines (the index loops of D1Or0 with their early exits never leave the slices, terminate, and return what '
+               'prefix/suffix stripping returns) hence d1or0_verbatim_spec / d1or0_verbatim_symm ON THE VERBATIM TRANSCRIPTION; '
+               'fastLCS_verbatim_refines (FastLCSEGFScoreByte with endgapfree=false - two anti-diagonal rows in one buffer, xs/xf index arithmetic, '
+               'packed cells, sentinels, _setout, every slice access bounds-checked - never panics and returns exactly what the banded matrix by rows '
+               'returns, for every bound and EVERY initial buffer content) hence fastLCS_verbatim_sound / _exact / _beyond / '
+               'fastLCSScore_verbatim_exact / fastLCS_verbatim_never_panics on the verbatim transcription; fastLCS_scratch_independent and '
+               'fastLCS_history_independent (endgapfree=false: the answer of a call does not depend on the capacity or content of the scratch buffer; '
+               'a history of calls on one buffer in any order gives the answers of fresh calls - every cell read was written in the same call). '
+               'BOTH MODES (endgapfree=false and true), all inputs, no length bound: fastLCS_anymode_scratch_independent (the verbatim kernel never '
+               'panics - no slice access out of range - and returns ONE (score, length, end) for every scratch buffer: nil, pre-allocated with any '
+               'stale word, or the caller buffer of any capacity and content; relational invariant over two runs) and '
+               'fastLCS_anymode_history_independent (any history of calls of either mode on one buffer, any order, any initial buffer = the fresh '
+               'answers). PARTIAL: the EXACTNESS of endgapfree=true (FastLCSEGFScore: score, end-gap-free length, end position) is tied by '
+               'correspondence (single calls and histories on one buffer) and by the naive end-gap-free DP oracle only.',
+ 'level_note': 'Trusted: Lean kernel; the transcriptions in Model/Lcs.lean and Model/LcsBuf.lean (the latter only splits the former at the buffer: '
+               'fastLCSEGFScoreByte_eq_runFrom proves fastLCSEGFScoreByte = setup followed by runFrom on its fill buffer); the extractor (literals of '
+               '_iupac). The verbatim layers (index loops of D1Or0; two anti-diagonal rows in one buffer with the xs/xf index arithmetic of '
+               'FastLCSEGFScoreByte, endgapfree=false) are now PROVED equal to the structural layers (d1F; bandLCS) the property theorems were stated '
+               'on, so every C09 theorem holds of the verbatim transcription (vm_C09 still answers layer-mismatch if the executed layers ever '
+               'differed). NOT proved: what endgapfree=true computes (no structural layer, no specification-level theorem: its score/length/end are '
+               'checked on the real code against the naive end-gap-free DP; its freedom from panics and its independence of the scratch buffer ARE '
+               'proved, on the verbatim transcription); the buffer model identifies the caller\'s slice with its cap-long backing array (len < cap callers are not '
+               'distinguished - the code only uses cap and re-slices).',
  'trusted_base': LEAN_TB + ['extract/ (go/ast literal extraction of _iupac)', 'naive full-matrix LCS (specified IUPAC compatibility) and Levenshtein oracles in the harness'],
- 'modelled': 'pkg/obialign fastlcsegf.go (_iupac, _samenuc, FastLCSEGFScoreByte, FastLCSScore, FastLCSEGFScore), fastlcs.go (encodeValues, decodeValues, '
-             '_incpath, _incscore, _setout, _empty/_out/_notavail), is_d0_or_d1.go (D1Or0)',
- 'assumptions': ['|a| + |b| < 30000 for the LCS theorems (sentinel length 30000; 16-bit score/length fields)',
+ 'modelled': 'pkg/obialign fastlcsegf.go (_iupac, _samenuc, FastLCSEGFScoreByte incl. the buffer re-allocation test cap < 2*width and the reuse of '
+             'the caller buffer across calls, FastLCSScore, FastLCSEGFScore), fastlcs.go (encodeValues, decodeValues, _incpath, _incscore, _setout, '
+             '_empty/_out/_notavail), is_d0_or_d1.go (D1Or0)',
+ 'assumptions': ['|a| + |b| < 30000 for the LCS exactness/soundness theorems (sentinel length 30000; 16-bit score/length fields); the refinement and '
+                 'buffer-independence theorems need no length bound',
                  'symbols outside the IUPAC alphabet: the property does not say what matches; the model follows the code (letters that are not IUPAC '
                  'codes match nothing, not even themselves; other bytes match iff equal) and the oracle is silent on them',
-                 'D1Or0 is given the stored (lower-cased) sequences of the BioSequence objects']}
+                 'D1Or0 is given the stored (lower-cased) sequences of the BioSequence objects',
+                 'a scratch buffer is used by one goroutine at a time (as all callers do: one buffer per worker)']}
